@@ -76,8 +76,6 @@ class Normaliser:
         self.n_eff = 0
         self.decided: Dict[str, bool] = {}   # path condition: dump of a test -> its value on the current path
         self.vnum: Dict[str, tuple] = {}     # variables that stay variables are numbered in the order they are first bound
-        self.pending: Dict[int, ast.AST] = {}  # pure bindings whose value contains a call: they must be used somewhere (else they are reported)
-        self.used_ids = set()
         fn = prepass(fn)
         self.fn = fn
         self.captured = set()   # names read inside nested defs/classes: always emitted as bindings
@@ -132,11 +130,7 @@ class Normaliser:
             return None
         if isinstance(node, ast.Name):
             if isinstance(node.ctx, ast.Load) and node.id not in bound and node.id in env:
-                v_ = env[node.id]
-                if id(v_) not in self.used_ids:
-                    for x_ in ast.walk(v_):
-                        self.used_ids.add(id(x_))
-                return v_
+                return env[node.id]
             return node
         if isinstance(node, ast.Constant):
             return node
@@ -678,16 +672,30 @@ class Normaliser:
                 env[nm] = ast.Name(id=OP + nm, ctx=ast.Load())
 
     def stores_in(self, stmts) -> list:
-        pos = {}
+        """names stored in the statements, in the order of their first store (depth first, in source order)"""
+        out = []
+
+        def rec(n):
+            if isinstance(n, (ast.FunctionDef, ast.AsyncFunctionDef, ast.ClassDef)):
+                if n.name not in out:
+                    out.append(n.name)
+                return
+            if isinstance(n, ast.Name):
+                if isinstance(n.ctx, ast.Store) and n.id not in out:
+                    out.append(n.id)
+                return
+            if isinstance(n, (ast.Assign, ast.AugAssign, ast.AnnAssign)):
+                # the value is evaluated before the target is bound
+                if getattr(n, "value", None) is not None:
+                    rec(n.value)
+                for t in (n.targets if isinstance(n, ast.Assign) else [n.target]):
+                    rec(t)
+                return
+            for ch in ast.iter_child_nodes(n):
+                rec(ch)
         for s in stmts:
-            for n in ast.walk(s):
-                if isinstance(n, (ast.FunctionDef, ast.AsyncFunctionDef, ast.ClassDef)):
-                    pos.setdefault(n.name, (getattr(n, "lineno", 0), getattr(n, "col_offset", 0)))
-                elif isinstance(n, ast.Name) and isinstance(n.ctx, ast.Store):
-                    p_ = (getattr(n, "lineno", 0), getattr(n, "col_offset", 0))
-                    if n.id not in pos or p_ < pos[n.id]:
-                        pos[n.id] = p_
-        return [k for k, _ in sorted(pos.items(), key=lambda kv: kv[1])]
+            rec(s)
+        return out
 
     def pure(self, n) -> bool:
         for x in ast.walk(n):
@@ -715,8 +723,6 @@ class Normaliser:
                 self.bind_var(nm, value, env, eff)
             else:
                 env[nm] = value
-                if any(isinstance(x, ast.Call) for x in ast.walk(value)) and not getattr(value, "_unpacked_item", False):
-                    self.pending[id(value)] = value
             return
         if isinstance(target, (ast.Tuple, ast.List)):
             if any(isinstance(e, ast.Starred) for e in target.elts):
@@ -920,11 +926,16 @@ class Normaliser:
                     if not (isinstance(e_, ast.Name) and e_.id == OP + nm) and any(isinstance(x, (ast.Call, ast.Subscript, ast.Attribute, ast.BinOp)) for x in ast.walk(e_)) \
                             and any(isinstance(x, ast.Name) and x.id == nm for st_ in [s] + rest for x in ast.walk(st_)):
                         self.bind_var(nm, e_, env, eff)
-                inside_body = {id(x) for st_ in s.body for x in ast.walk(st_)}
-                elsewhere = {x.id for x in ast.walk(self.fn) if isinstance(x, ast.Name) and id(x) not in inside_body}
+                parts = [s.body, s.orelse, s.finalbody] + [h.body for h in s.handlers]
+                local_to_part = set()
+                for part in parts:
+                    inside = {id(x) for st_ in part for x in ast.walk(st_)}
+                    names_here = {x.id for st_ in part for x in ast.walk(st_) if isinstance(x, ast.Name)}
+                    outside = {x.id for x in ast.walk(self.fn) if isinstance(x, ast.Name) and id(x) not in inside}
+                    local_to_part |= (names_here - outside)
                 for nm in self.stores_in(s.body + s.orelse + s.finalbody + [x for h in s.handlers for x in h.body]):
-                    if nm not in elsewhere and nm not in self.captured and nm not in self.mutated and nm not in env:
-                        continue   # bound and read inside the try body only: an ordinary temporary of that body
+                    if nm in local_to_part and nm not in self.captured and nm not in self.mutated and nm not in env:
+                        continue   # bound and read inside one part of the try only: an ordinary temporary of that part
                     if nm in env and not (isinstance(env[nm], ast.Name) and env[nm].id == OP + nm):
                         self.bind_var(nm, env[nm], env, eff)
                     env[nm] = ast.Name(id=OP + nm, ctx=ast.Load())
@@ -968,7 +979,20 @@ class Normaliser:
                 env.pop(s.name, None)
                 continue
             if isinstance(s, ast.ClassDef):
-                eff.append(("class", ast.dump(s)))
+                body = []
+                for cs in s.body:
+                    if isinstance(cs, ast.Expr) and isinstance(cs.value, ast.Constant):
+                        continue
+                    if isinstance(cs, ast.Assign):
+                        body.append(("cassign", tuple(ast.dump(t) for t in cs.targets), self.exo(self.subst(cs.value, env), {})))
+                    elif isinstance(cs, (ast.FunctionDef, ast.AsyncFunctionDef)):
+                        body.append(("def", cs.name, tuple(a.arg for a in cs.args.posonlyargs + cs.args.args + cs.args.kwonlyargs),
+                                     tuple(self.exo(self.subst(d, env), {}) for d in cs.args.defaults), tuple(self.exo(self.subst(d, env), {}) for d in cs.decorator_list)))
+                    elif isinstance(cs, ast.Pass):
+                        continue
+                    else:
+                        body.append(("raw", ast.dump(cs)))
+                eff.append(("class", s.name, tuple(self.exo(self.subst(b, env), {}) for b in s.bases), tuple(body)))
                 env.pop(s.name, None)
                 continue
             raise Unsupported(type(s).__name__)
@@ -1038,11 +1062,13 @@ class Normaliser:
         temps = self.iteration_temps(s)
         assigned = [n for n in self.stores_in(s.body + s.orelse)]
         tnames = _bound_names(s.target) if isinstance(s, ast.For) else set()
-        for nm in assigned:
-            if nm in tnames or nm in temps:
-                continue
-            if nm in env and not (isinstance(env[nm], ast.Name) and env[nm].id == OP + nm):
-                self.bind_var(nm, env[nm], env, eff)
+        carried = [nm for nm in assigned if nm not in tnames and nm not in temps]
+        # the values the loop starts from are bound first, in an order that does not depend on names or on the layout of the loop body
+        start = [nm for nm in carried if nm in env and not (isinstance(env[nm], ast.Name) and env[nm].id == OP + nm)]
+        start.sort(key=lambda nm: ast.dump(env[nm]))
+        for nm in start:
+            self.bind_var(nm, env[nm], env, eff)
+        for nm in carried:
             env[nm] = ast.Name(id=OP + nm, ctx=ast.Load())
         e2 = dict(env)
         for nm in temps:
@@ -1376,11 +1402,4 @@ def normal_form(fn, consts=None, helpers=None, methods=None):
            defaults, tuple(nz.exo(d, {}) for d in fn.decorator_list))
     eff, _ = nz.block(_body(fn), {}, ())
     is_gen = any(isinstance(x, (ast.Yield, ast.YieldFrom)) for x in ast.walk(fn))
-    unused = []
-    for k, v in nz.pending.items():
-        if k not in nz.used_ids:
-            try:
-                unused.append(("evaluated-but-unused", nz.exo(nz.apply_decided(v), {})))
-            except Unsupported:
-                unused.append(("evaluated-but-unused", ast.dump(v)))
-    return (sig, tuple(strip_tail(eff, "return")) if not is_gen else tuple(eff), tuple(sorted(set(unused), key=repr)))
+    return (sig, tuple(strip_tail(eff, "return")) if not is_gen else tuple(eff))
